@@ -16,7 +16,7 @@
 import AHP.Lemmas.Search
 import AHP.Lemmas.ClassWords
 namespace AHP.C06
-open AHP
+open AHP AHP.G3
 
 /-! #### C06a — parser and element forms: the recursive scan is the filter of the scope -/
 
